@@ -131,7 +131,9 @@ fn replace(h: &[u8], off: usize, with: &[u8]) -> Vec<u8> {
 }
 
 pub fn run_family(name: &str, thorough: bool) -> Vec<Value> {
-    let f = fix();
+    // the honest artefacts the decoder families start from; the other families build their own
+    let needs_fix = ["pk", "pk_coord", "sk", "sig", "sig_allflips", "pok", "zkpok", "commitment", "blindfactor", "message"].contains(&name);
+    let f = if needs_fix { fix() } else { Fix { pk: vec![], sk: vec![], sig: vec![], proof: vec![], commitment: vec![], blind: vec![] } };
     let mut p = Probes { out: vec![] };
     match name {
         "pk" => {
